@@ -176,12 +176,14 @@ def build_module(r, acc):
             L.append("      %k = kernel.mul %a, %b : i8, i8 -> i8")
             L.append("      dart.yield %k : i8")
             L.append("    }) : (!dart.stream<i8>, !dart.stream<i8>) -> !dart.stream<i8>")
-        elif kn == "add":
+        elif kn in ("add", "add_i8"):
+            # AddExtension declares kernel.add on i32; the same kernel on i8 is supported by no extension
+            t = "i32" if kn == "add" else "i8"
             L.append('    %g0 = "dart.generic"(%s0, %s0) <{library_call = "snax_xdma"}> ({')
-            L.append("    ^bb1(%a: i8, %b: i8, %o: i8):")
-            L.append("      %k = kernel.add %a, %b : i8, i8 -> i8")
-            L.append("      dart.yield %k : i8")
-            L.append("    }) : (!dart.stream<i8>, !dart.stream<i8>) -> !dart.stream<i8>")
+            L.append(f"    ^bb1(%a: {t}, %b: {t}, %o: {t}):")
+            L.append(f"      %k = kernel.add %a, %b : {t}, {t} -> {t}")
+            L.append(f"      dart.yield %k : {t}")
+            L.append(f"    }}) : (!dart.stream<{t}>, !dart.stream<{t}>) -> !dart.stream<{t}>")
         elif kn == "rescale_down":
             L.append('    %g0 = "dart.generic"(%s0) <{library_call = "snax_xdma"}> ({')
             L.append("    ^bb1(%a: i32, %o: i8):")
@@ -467,17 +469,32 @@ def _check_gemmx(r, acc, vals, text):
 
 
 def _check_xdma(r, acc, vals, text):
+    """Extension registers: bit j of <streamer>_bypass selects the j-th *extension* of the streamer (plain options do not count) and is
+    set exactly for the extension that provides the region's kernel; that extension's registers hold the kernel parameters (add: the
+    number of inputs 2; rescale: input zero point, multiplier, output zero point, shift), every other extension register is 0."""
     from snaxc.accelerators.streamers.extensions import StreamerExtension
 
     cfg = acc.streamer_config.data
+    rs = r.get("rescale") or {}
     for name, s in zip(acc.streamer_names, cfg.streamers):
         exts = [o for o in s.opts if isinstance(o, StreamerExtension)]
-        for e in exts:
+        want_bypass = 0
+        for j, e in enumerate(exts):
             matches = e.supported_kernel is not None and _ext_matches(e, r["kernel"])
-            if not matches:
+            if matches:
+                want_bypass += 2 ** j
+                want = [2] if r["kernel"] == "add" else [rs["zp_in"], rs["mult"][0], rs["zp_out"], rs["shift"][0]]
+                got = [vals.get(f"{name}_{e.name}_{i}") for i in range(e.csr_length)]
+                if got != [_u(v) for v in want]:
+                    raise Violation("xdma:extension-registers-differ-from-kernel-parameters",
+                                    dict(streamer=name, extension=e.name, got=got, want=want, module=text))
+            else:
                 for i in range(e.csr_length):
                     if vals.get(f"{name}_{e.name}_{i}") != 0:
                         raise Violation("xdma:unused-extension-register-not-zero", dict(field=f"{name}_{e.name}_{i}", got=vals.get(f"{name}_{e.name}_{i}")))
+        if f"{name}_bypass" in vals and vals[f"{name}_bypass"] != want_bypass:
+            raise Violation("xdma:bypass-mask-differs-from-extension-positions",
+                            dict(streamer=name, got=vals[f"{name}_bypass"], want=want_bypass, options=[o.name for o in s.opts], module=text))
 
 
 def _ext_matches(ext, kernel):
@@ -579,19 +596,24 @@ def recipe(draw, tier):
             specs = _default_specs(make_acc(r))
         else:
             from snaxc.accelerators.streamers.extensions import STREAMER_OPT_MAP
+            from snaxc.accelerators.streamers.streamers import HasChannelMask
 
             names = [n for n in STREAMER_OPT_MAP if n not in ("a", "b")]
             specs = []
             for i in range(2):
                 nt = draw(st.integers(1, 6))
-                specs.append(["r" if i == 0 else "w", ["n"] * nt, [8], [o for o in names if draw(st.booleans())]])
+                # any subset of the options / extensions in any order; the channel mask is favoured because without it the
+                # known finding "enabled_chan declared without the option" ends the case early
+                chosen = [o for o in names if draw(st.booleans()) or (o == HasChannelMask().name and draw(st.booleans()))]
+                specs.append(["r" if i == 0 else "w", ["n"] * nt, [8], list(draw(st.permutations(chosen)))])
             r = dict(acc="xdma", config=dict(streamers=specs))
         r["patterns"] = [draw(_pattern(s, primes, sb, allow_zero_ss=False)) for s in specs]
         r["zero"] = []
         # every xDMA streaming region the real flow builds holds a dart.generic with a kernel op (get_template asserts it)
-        r["kernel"] = draw(st.sampled_from(["mul_unsupported", "add", "add", "rescale_down", "rescale_up"]))
+        r["kernel"] = draw(st.sampled_from(["mul_unsupported", "add", "add", "add_i8", "rescale_down", "rescale_up"]))
         r["rescale"] = draw(_rescale(1))
-        r["stream_types"] = {"mul_unsupported": ["i8", "i8"], "add": ["i8", "i8"], "rescale_down": ["i32", "i8"], "rescale_up": ["i8", "i32"]}[r["kernel"]]
+        r["stream_types"] = {"mul_unsupported": ["i8", "i8"], "add": ["i32", "i32"], "add_i8": ["i8", "i8"], "rescale_down": ["i32", "i8"],
+                             "rescale_up": ["i8", "i32"]}[r["kernel"]]
         r["n_out"] = 1
         return r
     # gemmx
@@ -644,12 +666,18 @@ def recipe(draw, tier):
             d8_p = dict(ub=[nk] + outer[:1], ts=out_ts[:2], ss=d8_p["ss"])
             a_p = dict(ub=[nk] + outer[:1], ts=a_p["ts"][:2], ss=a_p["ss"])
             b_p = dict(ub=[nk] + outer[:1], ts=b_p["ts"][:2], ss=b_p["ss"])
+        if draw(st.integers(0, 2)) == 0:
+            # bias broadcast along an output dimension: the C stream stands still where the output advances
+            j = draw(st.integers(1, len(c_p["ub"]) - 2))
+            c_p["ts"][j] = 0
         r["patterns"] = [a_p, b_p, d8_p, c_p, empty_d32]
         r["zero"] = [3]
         r["stream_types"] = ["i8", "i8", "i8", "i32", "i32"]
     else:
         d32_p = dict(ub=[nk] + outer, ts=out_ts, ss=ss(specs[4]))
         c_p = dict(ub=list(d32_p["ub"]), ts=list(d32_p["ts"]), ss=list(d32_p["ss"]))
+        if draw(st.integers(0, 2)) == 0:
+            c_p["ts"][draw(st.integers(1, len(c_p["ub"]) - 1))] = 0
         r["patterns"] = [a_p, b_p, empty3, c_p, d32_p]
         r["zero"] = [3]
         r["stream_types"] = ["i8", "i8", "i8", "i32", "i32"]
@@ -658,6 +686,6 @@ def recipe(draw, tier):
 
 
 SUBS = [
-    Sub("setup_values", lambda tier: recipe(tier), prop, budget=dict(quick=2500, thorough=60000), floor=dict(quick=300, thorough=6000),
+    Sub("setup_values", lambda tier: recipe(tier), prop, budget=dict(quick=6000, thorough=80000), floor=dict(quick=600, thorough=8000),
         nontrivial_rule="non-default configuration, or a pattern shorter than the hardware dimensionality, or a reuse/broadcast/zero-pointer rule fired"),
 ]
